@@ -74,7 +74,11 @@ def main():
             r = json.load(f)
         ctx = core.Ctx(a.prop, a.tier, a.seed, level=level)
         ctx._cur = (r["clause"], r["case"])
-        mod.evaluate(r["clause"], r["case"], ctx)
+        os.environ["VERIF_SCRATCH"] = scratch_dir()
+        try:
+            mod.evaluate(r["clause"], r["case"], ctx)
+        finally:
+            shutil.rmtree(os.environ["VERIF_SCRATCH"], ignore_errors=True)
         for v in ctx.violations:
             print("REPLAY-VIOLATION property=%s clause=%s %s" % (a.prop, v["clause"], v["what"]))
         print("replay: %d violation(s)" % ctx.viol_count)
